@@ -9,7 +9,7 @@ from .model import AnalysisError
 from .values import (NONE, Num, Str, SStr, Cat, Obj, TupleV, Star, Choice, Opaque, vkey, deps_of)
 from .absint import Raised, BOOL, SIGNS
 
-PURE_EVENTS = ('call', 'range', 'divide', 'convert', 'partial', 'loop-iter', 'loop-truncated', 'seq-append', 'seq-extend', 'loop-summary')
+PURE_EVENTS = ('call', 'yield', 'range', 'divide', 'convert', 'partial', 'loop-iter', 'loop-truncated', 'seq-append', 'seq-extend', 'loop-summary')
 
 
 def summarise(I, cls, name):
